@@ -64,6 +64,9 @@ class P:
                 C += [flag[f], hx(srcs["cli"])]
         line = "options D %s E %s F %s C %s" % (" ".join(D), " ".join(E), " ".join(F), " ".join(C))
         self.cases_json[line] = {"cmd": "options", "env": env, "file": ("\n".join(filelines) + "\n") if filelines else None, "args": args, "pre_args": pre}
+        if rng is not None:
+            # the configuration file named in each spelling the flag package accepts
+            self.cases_json[line]["config_form"] = rng.choice(["-config F", "-config F", "-config=F", "--config F", "--config=F"])
         exp = {}
         for f, fl in regs:
             s = chosen.get(f, {})
@@ -174,7 +177,7 @@ class P:
 
     def assumptions(self):
         return ["environment values are non-empty and well-typed (an empty variable counts as unset; an ill-typed one is a fatal start-up error)",
-                "the configuration file is named with -config <path>; slice-valued sflow-type-filter is outside 'integer, string, boolean'"]
+                "the configuration file is named on the command line in any spelling the flag package accepts (-config f, --config f, -config=f, --config=f); slice-valued sflow-type-filter is outside 'integer, string, boolean'"]
 
 
 PROP = P()
